@@ -141,6 +141,8 @@ func (in *balInput) shape() string {
 }
 
 type balRun struct {
+	slow   bool // a Plan on a very large group was still running when the watchdog fired (not a verdict)
+	hung   bool
 	prop   string
 	viols  []proto.Viol
 	seen   map[string]bool
@@ -210,7 +212,18 @@ func (r *balRun) plan(in *balInput) (sarama.BalanceStrategyPlan, bool) {
 	}
 	plan, err, hung, pan := planWithWatchdog(strat, members, topics)
 	if hung {
-		r.addViol("plan-hang", in.strat, "Plan did not return within 20 s", in, nil)
+		size := 0
+		for _, ps := range in.topics {
+			size += len(ps)
+		}
+		size *= len(in.members)
+		if size <= 5000 {
+			// 20 s is four orders of magnitude above what any plan of this size needs
+			r.addViol("plan-hang", in.strat, fmt.Sprintf("Plan did not return within 20 s on a group of %d members and %d member-partition pairs", len(in.members), size), in, nil)
+		} else {
+			r.slow = true
+		}
+		r.hung = true
 		return nil, false
 	}
 	if pan != nil {
@@ -556,10 +569,11 @@ func (e *balanceEngine) Run(prop, tier string, seed int64, idx int) proto.Rec {
 	}
 	sort.Strings(rec.Paths)
 	rec.NonTrivial = len(rec.Paths) > 0
-	for _, v := range r.viols {
-		if v.Kind == "plan-hang" {
-			restartAfterCase = true // a goroutine is spinning; this process cannot go on
-		}
+	if r.hung {
+		restartAfterCase = true // a goroutine is still spinning; this process cannot go on
+	}
+	if r.slow && len(r.viols) == 0 {
+		rec.Verdict, rec.Why = "inconclusive", "Plan on a very large group still running after 20 s"
 	}
 	return rec
 }
@@ -730,7 +744,8 @@ func randomGroup(rng *rand.Rand, strat string) *balInput {
 	big := rng.Intn(4) == 0
 	nt, nm, np := 1+rng.Intn(5), 1+rng.Intn(7), 9
 	if big {
-		nt, nm, np = 1+rng.Intn(30), 1+rng.Intn(40), 60
+		// sarama's sticky assignor is cubic in (members x partitions): keep large groups where a Plan still takes milliseconds
+		nt, nm, np = 1+rng.Intn(12), 1+rng.Intn(16), 25
 	}
 	in := &balInput{strat: strat, members: map[string]sarama.ConsumerGroupMemberMetadata{}, topics: map[string][]int32{}, prior: "none"}
 	var names []string
@@ -823,12 +838,9 @@ func (e *balanceEngine) chain(r *balRun, rng *rand.Rand) {
 		allTopics[t] = ps
 	}
 	if identical {
-		var names []string
-		for t := range in.topics {
-			names = append(names, t)
-		}
-		sort.Strings(names)
-		for m, md := range in.members {
+		names := sortedTopics(in.topics)
+		for _, m := range sortedMembers(in) {
+			md := in.members[m]
 			md.Topics = append([]string(nil), names...)
 			in.members[m] = md
 		}
@@ -869,12 +881,9 @@ func (e *balanceEngine) chain(r *balRun, rng *rand.Rand) {
 			id := fmt.Sprintf("j%d-%c", round, 'a'+byte(rng.Intn(26)))
 			var ts []string
 			if identical {
-				for _, md := range next.members {
-					ts = append([]string(nil), md.Topics...)
-					break
-				}
+				ts = append([]string(nil), next.members[sortedMembers(next)[0]].Topics...)
 			} else {
-				for t := range allTopics {
+				for _, t := range sortedTopics(allTopics) {
 					if rng.Intn(2) == 0 {
 						ts = append(ts, t)
 					}
@@ -905,7 +914,7 @@ func (e *balanceEngine) chain(r *balRun, rng *rand.Rand) {
 			id := ids[rng.Intn(len(ids))]
 			md := next.members[id]
 			var ts []string
-			for t := range allTopics {
+			for _, t := range sortedTopics(allTopics) {
 				if rng.Intn(2) == 0 {
 					ts = append(ts, t)
 				}
@@ -922,15 +931,16 @@ func (e *balanceEngine) chain(r *balRun, rng *rand.Rand) {
 				}
 			}
 		case "parts+":
-			for t, ps := range next.topics {
+			if ts := sortedTopics(next.topics); len(ts) > 0 {
+				t := ts[rng.Intn(len(ts))]
+				ps := next.topics[t]
 				np := append(append([]int32(nil), ps...), int32(len(ps)))
 				next.topics[t] = np
 				allTopics[t] = np
-				break
 			}
 		case "parts-":
-			for t, ps := range next.topics {
-				if len(ps) > 1 {
+			for _, t := range sortedTopics(next.topics) {
+				if ps := next.topics[t]; len(ps) > 1 {
 					next.topics[t] = ps[:len(ps)-1]
 					allTopics[t] = ps[:len(ps)-1]
 					break
@@ -938,10 +948,11 @@ func (e *balanceEngine) chain(r *balRun, rng *rand.Rand) {
 			}
 		case "topic-del":
 			if len(next.topics) > 1 {
-				for t := range next.topics {
+				for _, t := range sortedTopics(next.topics)[:1] {
 					delete(next.topics, t)
 					delete(allTopics, t)
-					for m, md := range next.members {
+					for _, m := range sortedMembers(next) {
+						md := next.members[m]
 						var ts []string
 						for _, x := range md.Topics {
 							if x != t {
@@ -951,10 +962,9 @@ func (e *balanceEngine) chain(r *balRun, rng *rand.Rand) {
 						md.Topics = ts
 						next.members[m] = md
 					}
-					break
 				}
-				for m, md := range next.members {
-					if len(md.Topics) == 0 {
+				for _, m := range sortedMembers(next) {
+					if len(next.members[m].Topics) == 0 {
 						delete(next.members, m)
 					}
 				}
@@ -1039,4 +1049,13 @@ func (r *balRun) stickiness(prevIn *balInput, prev sarama.BalanceStrategyPlan, i
 			r.addViol("sticky-not-fixed-point", "sticky", "unchanged group re-planned differently inside a chain", in, plan)
 		}
 	}
+}
+
+func sortedTopics(m map[string][]int32) []string {
+	var ks []string
+	for k := range m {
+		ks = append(ks, k)
+	}
+	sort.Strings(ks)
+	return ks
 }
